@@ -270,7 +270,9 @@ func c12Build(sc *C12Sc, env *Env) *c12World {
 			if !w.fired[i] && e.AtTick != 0 && e.AtTick == w.tick {
 				w.fired[i] = true
 				cpu.Interrupt = e.request()
-				env.Fire(fmt.Sprintf("malformed-request@tick/type=%d", e.Type))
+				if w.cancel == nil || w.tick <= w.cancelAt { // after cancel() the number of further Steps is the Go scheduler's
+					env.Fire(fmt.Sprintf("malformed-request@tick/type=%d", e.Type))
+				}
 			}
 		}
 		if w.cancel != nil && w.tick == w.cancelAt {
